@@ -426,8 +426,11 @@ static int decode_extended_headers(LHAFileHeader **header,
 
 		// Process header:
 
-		lha_ext_header_decode(*header, ext_header[0], ext_header + 1,
-		                      ext_header_len - field_size - 1);
+		if (!lha_ext_header_decode(*header, ext_header[0],
+		                           ext_header + 1,
+		                           ext_header_len - field_size - 1)) {
+			return 0;
+		}
 
 		// Advance to next header.
 
